@@ -81,7 +81,7 @@ _mk("C10",
     extra_tb=[TB_FLOAT, "strconv float text / encoding/json text (oracles answered by the harness)"], exhaustive=True)
 
 _mk("C11",
-    ["Platypus.Properties.C11", "Platypus.Properties.C11Contracts", "Platypus.Properties.C10"],
+    ["Platypus.Properties.C11", "Platypus.Properties.C11Contracts", "Platypus.Properties.C10", "Platypus.Properties.BuiltinFacts"],
     rule="matrix: 20 subjects (absent; variable of every type; field of every type incl. 2^53+1, max int64, numeric/JSON/bad-JSON/bad-URL strings; tag; variable shadowing a field) "
          "x ~100 call shapes of add_key/get_key/set_tag/drop_key/rename/cast/set_measurement/len/load_json/strfmt/printf/trim/uppercase/replace/url_decode "
          "(identifier, string literal, attribute expression, `_`, nested expressions, optional arguments, failing arguments); engines answered by the harness; strict",
@@ -197,7 +197,7 @@ _mk("C07",
     extra_tb=["strconv.ParseFloat (oracle)"], exhaustive=True)
 
 _mk("C01",
-    ["Platypus.Properties.C01", "Platypus.Properties.C01Bridge"],
+    ["Platypus.Properties.C01", "Platypus.Properties.C01Bridge", "Platypus.Properties.BuiltinFacts"],
     rule="random programs over the whole grammar from the typed generator with 1-in-5 ill-typed operands, extreme integers (+-2^53+-1, min/max int64), negative/reversed/out-of-range/overflowing slice bounds and steps, "
          "object-less index expressions, attribute expressions, every builtin with the argument shapes its checker accepts, exit(), on random points (tags/fields of every type, nil, colliding names); "
          "each program is loaded and run by the real engine in a worker process (panic, fatal error, timeout and OOM are classified) and by the model; "
